@@ -1605,6 +1605,12 @@ impl Context {
             }
             LookupRes::Global(v) => match v.as_ref() {
                 Value::Global(_gv) => self.push_inst(Instruction::GetGlobal(v.clone(), t)),
+                // A register in the global scope is a variable bound by a match pattern of a
+                // top-level statement. Like a local variable of a function it is a pointer to
+                // the value, and it lives in the global initialiser only.
+                Value::Register(_) if self.get_ctxdata().func_i.0 == 0 => {
+                    self.push_inst(Instruction::Load(v.clone(), t))
+                }
                 Value::Function(_) | Value::Register(_) => v.clone(),
                 _ => unreachable!("non global_value"),
             },
